@@ -341,7 +341,7 @@ def registry_cases(reg):
         et = rows(reg, r, "exts") or []
         seen = set()
         for x in et:
-            if x[1] not in seen and x[1] < 128:
+            if x[1] not in seen and x[1] < 256:
                 seen.add(x[1])
                 cases.append(("E %d %d" % (lid, x[1]), (lambda a, lid=lid, x=x: [] if a == hx(x[0]) else
                               [dict(lang=lid, table="exts", registry_row=x, reason="extension value decodes differently", now=a)]), 1, "exts"))
@@ -389,3 +389,233 @@ def registry_id_cases(reg):
                           [dict(lang=lid, table="main", registry_row=["root", v], reason="root element now selects another language",
                                 registry_selects=want, now=a)]), 1, "ids"))
     return cases
+
+
+# ----------------------------------------------------------------------------
+# C08: python counterpart of Model/TablesCheck.v (offending rows) and the exhaustive lookup cases
+# ----------------------------------------------------------------------------
+
+KNOWN_TAG_ALIASES = [(14, 16, "DeviceEncryptionEnabled", "RequireStorageCardEncryption")]
+KNOWN_EXT_SYNONYMS = [("SMS", 67, 117), ("IM", 18, 104)]
+
+
+def tables_check(tj):
+    """list of offending rows {lang, table, row, reason, theorem}"""
+    bad = []
+
+    def add(thm, l, kind, row, why, **kw):
+        bad.append(dict(theorem=thm, lang=l["id"], table=kind, row=row, reason=why, **kw))
+    for l in tj["langs"]:
+        tg, at, vt, et, nt = (rows(tj, l, k) or [] for k in ("tags", "attrs", "vals", "exts", "ns"))
+        for r in tg:
+            if not (5 <= r[2] <= 0x3F) or (r[2] & 0x3F) in GLOBAL_TOKENS or r[1] > 255:
+                add("C08_token_ranges", l, "tags", r, "tag token outside 0x05-0x3F / equal to a global token after masking")
+            d = py_tag_of(tj, l, r[1], r[2])
+            e = py_tag_from_xml(tj, l, r[1], d[0])
+            if e is None or (e[1], e[2]) != (r[1], r[2]):
+                add("C08_tag_decode_then_encode", l, "tags", r, "token decodes to a name that is encoded with another token", decodes_to=d, encoded_as=e)
+            for cur in (None, r[1]):
+                e = py_tag_from_xml(tj, l, cur, r[0])
+                d = None if e is None else py_tag_of(tj, l, e[1], e[2])
+                if d is None or (d[0] != r[0] and (e[1], e[2], d[0], r[0]) not in KNOWN_TAG_ALIASES):
+                    add("C08_tag_encode_then_decode", l, "tags", r, "name is encoded with a token that decodes to another name (shadowed / duplicated token)",
+                        cur_page=cur, encoded_as=e, decodes_to=d)
+        for r in at:
+            if not (5 <= r[3] <= 0x7F) or r[3] in GLOBAL_TOKENS or r[2] > 255:
+                add("C08_token_ranges", l, "attrs", r, "attribute-start token outside 0x05-0x7F / equal to a global token")
+            d = py_attr_of(tj, l, r[2], r[3])
+            e, left = py_attr_from_xml(tj, l, d[0], d[1])
+            d2 = None if e is None else py_attr_of(tj, l, e[2], e[3])
+            if e is None or left is not None or e[3] != r[3] or d2[:2] != d[:2]:
+                add("C08_attr_decode_then_encode", l, "attrs", r, "token decodes to a name/value that is encoded with another token", decodes_to=d, encoded_as=e, left=left)
+            e, left = py_attr_from_xml(tj, l, r[0], r[1])
+            d = None if e is None else py_attr_of(tj, l, e[2], e[3])
+            if d is None or left is not None or d[:2] != r[:2]:
+                add("C08_attr_encode_then_decode", l, "attrs", r, "name/value is encoded with a token that decodes differently", encoded_as=e, left=left, decodes_to=d)
+        for r in vt:
+            if not (0x85 <= r[2] <= 0xFF) or r[2] in GLOBAL_TOKENS or r[1] > 255:
+                add("C08_token_ranges", l, "vals", r, "attribute-value token outside 0x85-0xFF / equal to a global token")
+            d = py_val_of(tj, l, r[1], r[2])
+            e = first(x for x in vt if x[0] in d[0])
+            if e is None or e[0] != d[0] or e[2] != r[2]:
+                add("C08_value_decode_then_encode", l, "vals", r, "token decodes to a string the encoder tokenises differently", decodes_to=d, first_match=e)
+            e = first(x for x in vt if x[0] in r[0])
+            d = None if e is None else py_val_of(tj, l, e[1], e[2])
+            if d is None or d[0] != r[0]:
+                add("C08_value_encode_then_decode", l, "vals", r, "value is encoded with a token that decodes differently (an earlier row is a substring)", first_match=e, decodes_to=d)
+        if len(et) >= 256:
+            add("C08_token_ranges", l, "exts", [len(et)], "extension table has 256 rows or more (8-bit index in parse_extension)")
+        for r in et:
+            if r[1] > 255:
+                add("C08_token_ranges", l, "exts", r, "extension token above 255")
+            d = py_ext_of(tj, l, r[1])
+            e = py_ext_from_xml(tj, l, d[0])
+            if e is None or (e[1] != r[1] and (d[0], e[1], r[1]) not in KNOWN_EXT_SYNONYMS):
+                add("C08_ext_decode_then_encode", l, "exts", r, "token decodes to a string that is encoded with another token", decodes_to=d, encoded_as=e)
+            e = py_ext_from_xml(tj, l, r[0])
+            d = None if e is None else py_ext_of(tj, l, e[1])
+            if d is None or d[0] != r[0]:
+                add("C08_ext_encode_then_decode", l, "exts", r, "string is encoded with a token that decodes differently", encoded_as=e, decodes_to=d)
+        for r in nt:
+            if py_xmlns(tj, l, r[1]) != r[0] or py_page_of_ns(tj, l, r[0]) != r[1] or r[1] > 255:
+                add("C08_namespace_bijection", l, "ns", r, "namespace <-> code page is not one to one",
+                    page_maps_to=py_xmlns(tj, l, r[1]), ns_maps_to=py_page_of_ns(tj, l, r[0]))
+        if l["ns"] >= 0:
+            for p in sorted(set(r[1] for r in tg)):
+                if py_xmlns(tj, l, p) is None:
+                    add("C08_namespace_bijection", l, "ns", [p], "tag code page without a namespace")
+    return bad
+
+
+def mutate_names(rng, names, k):
+    out = []
+    names = list(names)
+    for _ in range(k):
+        if not names:
+            break
+        n = rng.choice(names)
+        r = rng.below(5)
+        if r == 0:
+            out.append(n + rng.choice("xZ_1"))
+        elif r == 1:
+            out.append(n.swapcase())
+        elif r == 2:
+            out.append(n[:-1])
+        elif r == 3:
+            out.append(rng.choice("aQz") + n)
+        else:
+            out.append(n[: len(n) // 2])
+    return out
+
+
+def lookup_cases(tj, rng):
+    """the exhaustive tie of C08: every language x every code page x every byte in the three token spaces
+    through the parser's scans, every extension value 0..255, every row through the name -> token functions
+    (tags with every code page of the table, no page and an absent page), plus names that are not in the table.
+    Returns list of (line, kind)."""
+    cases = []
+    for l in tj["langs"]:
+        lid = l["id"]
+        tg, at, vt, et, nt = (rows(tj, l, k) for k in ("tags", "attrs", "vals", "exts", "ns"))
+        cases.append(("g %d" % lid, "get_table"))
+        for page in range(256):
+            cases.append(("T %d %d" % (lid, page), "tag_of_byte"))
+            cases.append(("A %d %d" % (lid, page), "attr_of_token"))
+            cases.append(("V %d %d" % (lid, page), "val_of_token"))
+        if et is not None:
+            for v in range(256):
+                cases.append(("E %d %d" % (lid, v), "ext_of_token"))
+        pages = sorted(set(r[1] for r in tg or []))
+        absent = first(p for p in (255, 254, 253, 77) if p not in pages)
+        names = sorted(set(r[0] for r in tg or []))
+        for n in names + mutate_names(rng, names, 12) + ["", "unknown"]:
+            for cur in [-1] + pages + [absent]:
+                cases.append(("t %d %d %s" % (lid, cur, hx(n)), "tag_from_xml"))
+        seen = set()
+        for r in at or []:
+            vals = [None, r[1]] if r[1] is not None else [None]
+            if r[1] is not None:
+                vals += [r[1] + rng.choice(["x", "/a", "0"]), r[1][:-1], r[1] + r[1]]
+            vals += ["", "zzz", rng.choice(["http://www.example.org/", "https://a", "true", "1"])]
+            for v in vals:
+                k = (r[0], v)
+                if k not in seen:
+                    seen.add(k)
+                    cases.append(("a %d %s %s" % (lid, hx(r[0]), hx(v)), "attr_from_xml"))
+        for n in mutate_names(rng, sorted(set(r[0] for r in at or [])), 8) + ["nosuchattr"]:
+            cases.append(("a %d %s %s" % (lid, hx(n), hx(rng.choice([None, "x"]))), "attr_from_xml"))
+        en = sorted(set(r[0] for r in et or []))
+        for n in en + mutate_names(rng, en, 10) + ["", "nosuch"]:
+            cases.append(("e %d %s" % (lid, hx(n)), "ext_from_xml"))
+        vn = sorted(set(r[0] for r in vt or []))
+        for n in vn:
+            cases.append(("c %d %s" % (lid, hx(n)), "contains_attr_value"))
+            cases.append(("c %d %s" % (lid, hx("q" + n + "q")), "contains_attr_value"))
+            cases.append(("c %d %s" % (lid, hx(n[:-1])), "contains_attr_value"))
+        cases.append(("c %d %s" % (lid, hx("")), "contains_attr_value"))
+        cases.append(("c %d %s" % (lid, hx("~~~")), "contains_attr_value"))
+        for page in range(256):
+            cases.append(("n %d %d" % (lid, page), "xmlns_of_page"))
+        nn = [r[0] for r in nt or []]
+        for n in nn + mutate_names(rng, nn, 4) + ["", "nosuch:ns"]:
+            cases.append(("p %d %s" % (lid, hx(n)), "page_of_xmlns"))
+    cases.append(("g 0", "get_table"))
+    cases.append(("g 4294967295", "get_table"))
+    cases.append(("g 9999", "get_table"))
+    return cases
+
+
+def unhx(h):
+    if h == "~":
+        return None
+    return "" if h == "-" else bytes.fromhex(h).decode("latin-1")
+
+
+def c_roundtrip_oracle(tj, cases, answers):
+    """judge the C's own answers: decode maps from the T/A/V/E lines, encode answers from the t/a/e lines;
+    the round trips of the property are recomputed from the C's answers alone (no model, no python lookup).
+    Returns list of offending dicts with the harness lines as input."""
+    dec_t, dec_a, dec_v, dec_e = {}, {}, {}, {}
+    for (line, kind), a in zip(cases, answers):
+        f = line.split(" ")
+        if a is None:
+            continue
+        if f[0] in "TAV":
+            fields = a.split(" ")
+            if len(fields) == 256:
+                {"T": dec_t, "A": dec_a, "V": dec_v}[f[0]][(int(f[1]), int(f[2]))] = fields
+        elif f[0] == "E":
+            dec_e[(int(f[1]), int(f[2]))] = a
+    bad = []
+    for (line, kind), a in zip(cases, answers):
+        f = line.split(" ")
+        if a is None:
+            continue
+        if f[0] == "t" and a != "none":
+            lid, cur, name = int(f[1]), int(f[2]), f[3]
+            p, t, n = a.split(" ")
+            l = lang_by_id(tj, lid)
+            if not any(r[0] == unhx(name) for r in rows(tj, l, "tags") or []):
+                bad.append(dict(input=line, c=a, reason="a name that is in no row was given a token"))
+                continue
+            back = dec_t.get((lid, int(p)), [None] * 256)[int(t)]
+            bname = back.split(":")[0] if back else None
+            if bname != name and (int(p), int(t), unhx(bname) if bname not in (None, "?", "notable") else None, unhx(name)) not in KNOWN_TAG_ALIASES:
+                bad.append(dict(input=line, c=a, decode_input="T %d %s" % (lid, p), decodes_to=back,
+                                reason="tag name is encoded with a token that the parser decodes to another name"))
+        elif f[0] == "a" and a != "none":
+            lid = int(f[1])
+            p, t, n, v, left = a.split(" ")
+            back = dec_a.get((lid, int(p)), [None] * 256)[int(t)]
+            if back != "%s=%s" % (n, v):
+                bad.append(dict(input=line, c=a, decode_input="A %d %s" % (lid, p), decodes_to=back,
+                                reason="attribute is encoded with a token that the parser decodes to another name/value"))
+            # the value prefix of the row plus what is left must be the value asked for
+            asked = unhx(f[3])
+            if asked is not None and n == f[2]:
+                pre, lf = unhx(v) or "", unhx(left)
+                if (lf is None and asked != pre) or (lf is not None and pre + lf != asked):
+                    bad.append(dict(input=line, c=a, reason="value prefix + rest differs from the value"))
+        elif f[0] == "e" and a != "none":
+            lid = int(f[1])
+            back = dec_e.get((lid, int(a)))
+            if back != f[2]:
+                bad.append(dict(input=line, c=a, decode_input="E %d %s" % (lid, a), decodes_to=back,
+                                reason="extension string is encoded with a token that decodes to another string"))
+    # decode-then-encode on the C's answers: every decodable (page, byte) re-encodes to the same token
+    enc_t = {}
+    for (line, kind), a in zip(cases, answers):
+        f = line.split(" ")
+        if f[0] == "t":
+            enc_t[(int(f[1]), int(f[2]), f[3])] = a
+    for (lid, page), fields in dec_t.items():
+        for b in range(5, 64):
+            x = fields[b]
+            if x in ("?", "notable") or x.startswith("err"):
+                continue
+            n = x.split(":")[0]
+            e = enc_t.get((lid, page, n))
+            if e is None or e.split(" ")[:2] != [str(page), str(b)]:
+                bad.append(dict(input="T %d %d" % (lid, page), byte=b, decodes_to=x, encode_input="t %d %d %s" % (lid, page, n), c=e,
+                                reason="tag token decodes to a name that is encoded, in that page, with another token"))
+    return bad
